@@ -14,6 +14,7 @@ type Spelling struct {
 	Bullets     string `json:"bullets,omitempty"`     // cycled per item line; chars from "-*+" ("" = "-")
 	Heading     bool   `json:"heading,omitempty"`     // roots written as # headings
 	HeadingFrom int    `json:"headingFrom,omitempty"` // with Heading: the first HeadingFrom roots are still written as list items (the mixed notation: list roots first, heading roots after them)
+	NoGap       []bool `json:"noGap,omitempty"`       // per item (cycled): the optional blank between the bullet and the name is left out ("-name"); only where the name does not start with a blank. List items only. NOT part of C15's notation family.
 	Hashes      []int  `json:"hashes,omitempty"`      // cycled per root: number of '#' (1..3)
 	Blank       []int  `json:"blank,omitempty"`       // cycled per item line: index into BlankTable put before the line (0 none)
 	Trail       int    `json:"trail,omitempty"`       // index into BlankTable for one blank line at the end (0 none)
@@ -116,6 +117,9 @@ func SpellLines(f Forest, sp Spelling) []Line {
 			}
 			l.Indent = strings.Repeat(sp.indentChar(), depth*sp.unit())
 		}
+		if len(sp.NoGap) > 0 && sp.NoGap[item%len(sp.NoGap)] && !strings.HasPrefix(l.Bullet, "#") && !strings.HasPrefix(n.Name, " ") {
+			l.Gap = ""
+		}
 		l.EOL = eol()
 		lines = append(lines, l)
 		item++
@@ -151,12 +155,13 @@ func NameOKForItem(name string) bool {
 	return true
 }
 
-// NameOKForHeading: additionally the heading notation gives no way to write leading/trailing spaces or a leading '#'.
+// NameOKForHeading: additionally the heading notation gives no way to write leading/trailing spaces. (A leading '#' is
+// fine: the speller always puts a blank between the heading marker and the name, "# #include".)
 func NameOKForHeading(name string) bool {
 	if !NameOKForItem(name) {
 		return false
 	}
-	if strings.HasPrefix(name, " ") || strings.HasSuffix(name, " ") || strings.HasPrefix(name, "#") {
+	if strings.HasPrefix(name, " ") || strings.HasSuffix(name, " ") {
 		return false
 	}
 	// a heading whose text is only blanks is not a heading with a name
